@@ -23,7 +23,7 @@ STARTS = {
     "init": "",
     "parsed-a": "i = 3\nil += {30}\nsl = {p, q}\ntm a { x = 1 }\ntm b { y = bee }\nmulti { x = 1 }\nmulti { x = 2 }\nsingle { zl += 3 }\n",
     "parsed-b": "il = {}\ns = x\nni = 4\nfl = {}\ntu t1 { }\ntu t2 { x = 2 }\ntm a { }\n",
-    "parsed-c": "il = {1, 2, 3, 4}\nsl += z\ntm c { }\ntm a { x = 9 }\ntm b { }\nb = on\nf = 0.5\n",
+    "parsed-c": "il = {1, 2, 3, 4}\nsl += z\ntm ab { }\ntm c { }\ntm a { x = 9 }\ntm b { }\ntm abc { }\nb = on\nf = 0.5\n",
 }
 
 
@@ -73,7 +73,7 @@ def ops():
                   lambda m, sec=sec, title=title: (m.addtsec(sec, title) is not None)))
     for sec, idx in (("tm", 0), ("tm", 1), ("tm", 2), ("multi", 0), ("multi", 5), ("single", 0), ("i", 0), ("nosuch", 0)):
         O.append(("rmnsec %s %d" % (sec, idx), ["rmnsec", 1, H(sec), idx], lambda m, sec=sec, idx=idx: m.rmnsec(sec, idx)))
-    for sec, title in (("tm", "a"), ("tm", "b"), ("tm", "zz"), ("tu", "t2"), ("multi", "x"), ("nosuch", "x")):
+    for sec, title in (("tm", "a"), ("tm", "b"), ("tm", "zz"), ("tu", "t2"), ("multi", "x"), ("nosuch", "x"), ("tm", "ab"), ("tm", ""), ("tu", "t")):
         O.append(("rmtsec %s %s" % (sec, title), ["rmtsec", 1, H(sec), H(title)], lambda m, sec=sec, title=title: m.rmtsec(sec, title)))
     for path in ("tm=a", "tm=new", "tm", "multi=1", "multi=7", "single", "nosuch", "tu=t1"):
         O.append(("rmsec %s" % path, ["rmsec", 1, H(path)], lambda m, path=path: m.rmsec(path)))
